@@ -235,6 +235,9 @@ def check(model: Model, run: Run) -> None:
     unescape_single_pass(model, run)
     int_presence_tests(model, run)
     parsed_numbers_kept(model, run)
+    decoder_strips_only_the_quotes(model, run)
+    presence_tests_guard_their_own_field(model, run)
+    serialisers_are_total(model, run)
     matched_text_is_the_input(model, run, "H11-definition-text-matched-as-given")
     from .c17 import extension_cut_positions
     extension_cut_positions(model, run, "H9-no-delimiter-search-across-quoted-values")
@@ -401,6 +404,91 @@ def keyword_skeleton(model: Model, run: Run, folder: Folder, cname: str) -> None
     if not ok:
         run.fail(Finding("H5-keyword-order", q + ".__str__", f"order={[k for k, _ in kws]}",
                          f"__str__ can emit {''.join(chr(c) for c in w)!r} (keywords in its own order), which the description pattern does not accept", model.loc(SCHEMA, sfi.node)))
+
+
+def decoder_strips_only_the_quotes(model: Model, run: Run, rule: str = "H14-decoder-removes-only-the-delimiters") -> None:
+    """H14: the qdstring decoder takes off exactly what the encoder puts around the text - the two quotes.  A strip() that
+    also names other characters (a space, a backslash) eats text that begins or ends with them."""
+    from ..anchors import schema as schema_anchors
+    an = schema_anchors(model)
+    dec = an.decoder
+    n = 0
+    for c in walk_no_nested(dec.node):
+        if isinstance(c, ast.Call) and isinstance(c.func, ast.Attribute) and c.func.attr in ("strip", "lstrip", "rstrip"):
+            n += 1
+            a0 = c.args[0] if c.args else None
+            chars = a0.value if isinstance(a0, ast.Constant) and isinstance(a0.value, str) else None
+            ok = chars is not None and set(chars) <= {"'"}
+            run.ob(rule, ok, {"call": norm(c)[:60]})
+            if not ok:
+                run.fail(Finding(rule, dec.qualname, norm(c)[:80], f"{dec.name} strips `{norm(c)[:50]}`: anything but the quote characters removed there is part of the text "
+                                 "(a description that starts or ends with it does not come back)", model.loc(dec.module, c)))
+    run.ob(rule, True, {"strip_calls": n})
+
+
+def presence_tests_guard_their_own_field(model: Model, run: Run, rule: str = "H15-presence-test-guards-the-field-it-writes") -> None:
+    """H15: in the serialisers an `if` that tests fields of the object and whose body writes fields of the object tests (at
+    least one of) the fields it writes.  `if self.must: ... MAY {self.may}` writes MAY when there is nothing to write and drops
+    it when there is."""
+    n = 0
+    for cname in CLASSES:
+        q = f"{SCHEMA}.{cname}"
+        sfi = model.find_method(q, "__str__")
+        if sfi is None:
+            continue
+        fields = {f.name for f in model.dataclass_fields(q)}
+        fns = [sfi] + [model.find_method(q, x.attr) for x in ast.walk(sfi.node) if isinstance(x, ast.Attribute) and isinstance(x.value, ast.Name) and x.value.id == "self"
+                       and isinstance(x.ctx, ast.Load) and x.attr not in fields and model.find_method(q, x.attr) is not None]
+        for fi in {f.qualname: f for f in fns if f is not None and not isinstance(f.node, ast.Lambda)}.values():
+            for st in walk_no_nested(fi.node):
+                if not isinstance(st, ast.If):
+                    continue
+                tested = {x.attr for x in ast.walk(st.test) if isinstance(x, ast.Attribute) and isinstance(x.value, ast.Name) and x.value.id == "self" and x.attr in fields}
+                if not tested:
+                    continue
+                # fields written by the statements of the then-branch themselves (not by nested ifs, which are judged on their own)
+                written = set()
+                for b in st.body:
+                    if isinstance(b, ast.If):
+                        continue
+                    written |= {x.attr for x in ast.walk(b) if isinstance(x, ast.Attribute) and isinstance(x.value, ast.Name) and x.value.id == "self" and x.attr in fields}
+                if not written:
+                    continue
+                n += 1
+                ok = bool(tested & written)
+                run.ob(rule, ok, {"class": cname, "tested": sorted(tested), "written": sorted(written)})
+                if not ok:
+                    run.fail(Finding(rule, fi.qualname, f"test={sorted(tested)}|writes={sorted(written)}", f"{cname}.{fi.name} writes {sorted(written)} under a test of {sorted(tested)} "
+                                     f"(`{norm(st.test)[:50]}`): the element is written when its own field has nothing to write and left out when it has", model.loc(fi.module, st)))
+    run.floor("field-guarded writes in the schema serialisers", n, 1)
+
+
+def serialisers_are_total(model: Model, run: Run, rule: str = "H16-serialisers-are-total") -> None:
+    """H16: str() of a description cannot raise for any field values of the declared types (may-raise analysis of __str__ and
+    the formatting helpers it calls): an element list of length zero, an absent name, an unknown enum member must all have
+    a text form, or the round trip does not even start."""
+    from .c05 import may_raise
+    mr = may_raise(model)
+    n = 0
+    for cname in CLASSES:
+        q = f"{SCHEMA}.{cname}"
+        sfi = model.find_method(q, "__str__")
+        if sfi is None:
+            continue
+        escs = mr.escapes(sfi.qualname, q)
+        n += 1
+        if any(e.kind == "unknown-call" for e in escs):
+            raise AnalysisError(f"{q}.__str__: a call on the serialiser's path is not resolved ({[e.text[:40] for e in escs if e.kind == 'unknown-call'][:2]})")
+        bad = sorted(escs, key=lambda e: (e.exc, e.func, e.line))
+        run.ob(rule, not bad, {"class": cname})
+        for e in bad[:3]:
+            run.fail(Finding(rule, e.func, f"{e.exc.split('.')[-1]}|{e.text[:60]}", f"str({cname}) can raise {e.exc.split('.')[-1]} at `{e.text[:60]}` ({e.why or e.kind})",
+                             f"{model.relpath(SCHEMA)}:{e.line}", [e.short()]))
+    if mr.unknown_calls:
+        unk = [u for u in mr.unknown_calls if "schema" in u]
+        if unk:
+            raise AnalysisError("unresolved call sites in the schema serialisers: " + "; ".join(sorted(set(unk))[:3]))
+    run.floor("schema serialisers analysed for totality", n, 3)
 
 
 def parsed_numbers_kept(model: Model, run: Run, rule: str = "H13-parsed-zero-is-a-value") -> None:
